@@ -61,7 +61,12 @@ MUTANTS = [
     M("rs3-bounds-ignore-enabled", "visitors/variable_bound_visitor.py", "VariableBoundVisitor.visit_constraint_block", "c.enabled", "True", ["C07", "C14"], "RS3"),
     M("rs4-priority-reset", "model/rand_info_builder.py", "RandInfoBuilder.visit_constraint_soft", "self._soft_priority += 1", "self._soft_priority = 1", ["C05"], "RS4"),
     M("rs5-no-pop", "model/rand_info_builder.py", "RandInfoBuilder.visit_constraint_implies", "self._soft_cond_l.pop()", "pass", ["C05"], "RS5"),
-    M("rs5-else-guard", "model/rand_info_builder.py", "RandInfoBuilder.visit_constraint_if_else", "ExprUnaryModel(UnaryExprType.Not, c.cond)", "c.cond", ["C05"], "RS5"),
+    M("rs5-else-guard", "model/rand_info_builder.py", "RandInfoBuilder.visit_constraint_if_else", "RandInfoBuilder._soft_guard(c.cond, False)", "RandInfoBuilder._soft_guard(c.cond, True)", ["C05"], "RS5"),
+    M("sg1-raw-guard", "model/rand_info_builder.py", "RandInfoBuilder.visit_constraint_implies", "RandInfoBuilder._soft_guard(c.cond, True)", "c.cond", ["C05"], "SG1"),
+    M("xe2-whole-list", "visitors/x_expr_evaluator.py", "XExprEvaluator.visit_expr_array_subscript", "s.subscript().accept(self)", "field.accept(self)", ["C01", "C03"], "XE2"),
+    M("rn10-initial-used-rand", "model/field_scalar_model.py", "FieldScalarModel.__init__", "self.is_used_rand = False", "self.is_used_rand = is_rand", ["C03"], "RN10"),
+    M("rn10-preextend-ungated", "visitors/array_constraint_builder.py", "ArrayConstraintBuilder.visit_field_scalar_array", "f.is_rand_sz and f.size.is_used_rand", "f.is_rand_sz", ["C03"], "RN10"),
+    M("ft27-facade-only", "types.py", "list_t.__setitem__", "model.set_field(k, elem_m)", "pass", ["C08", "C04"], "FT27"),
     M("rs7-swap-roles", "model/rand_info_builder.py", "RandInfoBuilder.visit_constraint_solve_order", "ExpandSolveOrderVisitor(self._order_m).expand(a, b)",
       "ExpandSolveOrderVisitor(self._order_m).expand(b, a)", ["C20"], "RS7"),
     M("rs7-pass1", "model/rand_info_builder.py", "RandInfoBuilder.visit_constraint_solve_order", "self._pass == 0", "self._pass == 1", ["C20"], "RS7"),
